@@ -359,6 +359,13 @@ impl SubCheck for MulDiv {
                     (D::of((if neg { -a } else { a }).clamp(-m, m)), kk)
                 }),
                 1 => (dur(), -20i32..=20),
+                // whole seconds * factor straddles the 64-bit seconds range (far outside the duration range):
+                // a = (i64::MAX s) / |k| +/- small, with a large sub-second part
+                2 => (prop_oneof![1 => 1001i32..=i32::MAX, 1 => i32::MIN..=-1001, 1 => proptest::sample::select(vec![1_000_000i32, -1_000_000, 1024, -4096, 65_536, 1_000_003])], -2i128..=2, 0i128..1_000_000_000, any::<bool>()).prop_map(move |(k, e, frac, neg)| {
+                    let secs = (i64::MAX as i128) / (k as i128).abs() + e;
+                    let a = secs * NS + frac;
+                    (D::of((if neg { -a } else { a }).clamp(-m, m)), k)
+                }),
             ]
             .boxed(),
         )
@@ -367,6 +374,7 @@ impl SubCheck for MulDiv {
         let a = ca.ns();
         classify(a, obs);
         obs.nt_if(matches!(k, 0 | 1 | -1 | i32::MIN | i32::MAX), "factor_edge");
+        obs.nt_if(k != 0 && ((a / NS * k as i128).abs() - i64::MAX as i128).abs() <= 3 * (k as i128).abs(), "seconds_product_at_i64_limit");
         let da = ca.td()?;
         let exact = a * k as i128;
         obs.nt_if((TD_MAX_NS - exact.abs()).abs() < (1 << 32), "product_near_limit");
